@@ -33,6 +33,10 @@ DateNewCells == {[k |-> "PlainDate.new", n |-> n] : n \in EdgeDays \cup FarDays}
 DateAddCells == {[k |-> "PlainDate.add", n |-> n, dd |-> dd, sub |-> s] : n \in {MinDay, MinDay + 1, MaxDay - 1, MaxDay, 0}, dd \in Deltas \cup BigDeltas, s \in BOOLEAN}
 DateAddMonthCells == {[k |-> "PlainDate.addMonths", date |-> dt, mo |-> mo] :
                         dt \in {Date(275760, 8, 13), Date(275760, 8, 14), Date(275760, 8, 31), Date(-271821, 5, 18), Date(-271821, 5, 19), Date(-271821, 5, 31)}, mo \in {-1, 1, 12, -12}}
+\* weeks: 7 * weeks + days is where a 32-bit day count overflows first (|weeks| > 306 783 378); the exact span MinDay..MaxDay is 28 571 428 weeks + 5 days
+DateAddWeekCells == {[k |-> "PlainDate.addWeeks", n |-> n, w |-> w, d |-> d] :
+                       n \in {MinDay, MaxDay, 0, MaxDay - 3}, d \in {0, 5, 6},
+                       w \in {28571428, 28571429, -28571428, -28571429, 306783378, 306783379, -306783379, 613566757, -613566757, 2147483647, -2147483647, 1, -1}}
 DTNewCells == {[k |-> "PlainDateTime.new", n |-> n, t |-> t] : n \in EdgeDays, t \in {Midnight, T1, TLast}}
 DTAddCells == {[k |-> "PlainDateTime.add", x |-> x, ns |-> b, sub |-> s] :
                  x \in {DT(Date(-271821, 4, 19), T1), DT(Date(-271821, 4, 19), Time(0, 0, 0, 0, 0, 2)), DT(Date(275760, 9, 13), TLast), DT(Date(275760, 9, 13), Time(23, 59, 59, 999, 999, 998))},
@@ -59,7 +63,7 @@ DurAddCells == {[k |-> "Duration.add", a |-> a, b |-> b] :
                   b \in {Dur10(Zero, Zero, Zero, Zero, Zero, Zero, One, Zero, Zero, Zero), Dur10(Zero, Zero, Zero, Zero, Zero, Zero, Neg(One), Zero, Zero, Zero),
                          Dur10(Zero, Zero, Zero, Zero, Zero, Zero, Zero, FromInt(999), Zero, Zero), Dur10(Zero, Zero, Zero, Zero, Zero, Zero, Zero, FromInt(1000), Zero, Zero),
                          Dur10(Zero, Zero, Zero, Zero, Zero, Zero, Zero, FromInt(-999), Zero, Zero), Dur10(Zero, Zero, Zero, Zero, Zero, Zero, Zero, FromInt(-1000), Zero, Zero)}}
-Cells == DateNewCells \cup DateAddCells \cup DateAddMonthCells \cup DTNewCells \cup DTAddCells \cup DTRoundCells \cup DateToDTCells \cup DateEpochCells
+Cells == DateNewCells \cup DateAddCells \cup DateAddMonthCells \cup DateAddWeekCells \cup DTNewCells \cup DTAddCells \cup DTRoundCells \cup DateToDTCells \cup DateEpochCells
          \cup DateConvCells \cup StrCells \cup ZdtCells \cup InstNewCells \cup InstAddCellsOK \cup InstMsCells \cup InstRoundCellsOK \cup DurAddCells
 
 \* the call (op, args) and its expected outcome
@@ -68,6 +72,9 @@ Call(c) ==
     [] c.k = "PlainDate.add" -> [op |-> IF c.sub THEN "PlainDate.subtract" ELSE "PlainDate.add",
                                  args |-> [recv |-> CivilFromDays(c.n), dur |-> DayD(IF c.sub THEN -c.dd ELSE c.dd)],
                                  out |-> AddDate(CivilFromDays(c.n), DayD(c.dd), "constrain")]
+    [] c.k = "PlainDate.addWeeks" -> LET dd == IF c.w < 0 THEN -c.d ELSE c.d       \* same sign as the weeks
+                                      IN [op |-> "PlainDate.add", args |-> [recv |-> CivilFromDays(c.n), dur |-> DateDur(0, 0, c.w, dd)],
+                                          out |-> AddDate(CivilFromDays(c.n), DateDur(0, 0, c.w, dd), "constrain")]
     [] c.k = "PlainDate.addMonths" -> [op |-> "PlainDate.add", args |-> [recv |-> c.date, dur |-> DateDur(0, c.mo, 0, 0)], out |-> AddDate(c.date, DateDur(0, c.mo, 0, 0), "constrain")]
     [] c.k = "PlainDateTime.new" -> [op |-> "PlainDateTime.new", args |-> [dt |-> DTJ(DT(CivilFromDays(c.n), c.t))], out |-> OutDT(DTNew(DT(CivilFromDays(c.n), c.t)))]
     [] c.k = "PlainDateTime.add" -> [op |-> IF c.sub THEN "PlainDateTime.subtract" ELSE "PlainDateTime.add",
@@ -106,4 +113,8 @@ Boundary ==
   /\ (cell.k = "PlainDateTime.new" /\ Done => (last.out.kind = "ok") = ((cell.n > MinDay \/ (cell.n = MinDay /\ cell.t # Midnight)) /\ cell.n <= MaxDay))
   /\ (cell.k = "PlainDate.add" /\ Done /\ AbsI(cell.dd) < 1000000000 => (last.out.kind = "ok") = (cell.n + cell.dd >= MinDay /\ cell.n + cell.dd <= MaxDay))
   /\ (cell.k = "PlainDate.add" /\ Done /\ AbsI(cell.dd) >= 1000000000 => last.out = ErrRange)
+  \* weeks: exactly those sums 7w + d that stay inside the range succeed (|w| < 3e7 keeps 7w inside TLC's integers); anything larger fails
+  /\ (cell.k = "PlainDate.addWeeks" /\ Done /\ AbsI(cell.w) < 30000000 =>
+        LET dd == IF cell.w < 0 THEN -cell.d ELSE cell.d IN (last.out.kind = "ok") = (cell.n + 7 * cell.w + dd >= MinDay /\ cell.n + 7 * cell.w + dd <= MaxDay))
+  /\ (cell.k = "PlainDate.addWeeks" /\ Done /\ AbsI(cell.w) >= 30000000 => last.out = ErrRange)
 =============================================================================
